@@ -275,4 +275,6 @@ def run(eng, rep):
     from .records import rule_snapshots_are_copies
     from .c03 import rule_extra_samples_same_slot
     rule_extra_samples_same_slot(eng, rep, rule="C17-7.extra-samples-go-to-the-slot-of-their-point")
+    # ('evaluation numbers travel with their points' at the call sites of the stores is decided by C03-3 and not repeated here: it would only duplicate
+    #  the four recorded findings of the parallel initialisers under a second property)
     rule_snapshots_are_copies(eng, rep, "C17-6.saved-record-does-not-alias-live-arrays", [("f", "Model", f) for f in ("xsave", "rsave", "jacsave", "jacsave_eval_nums")], "the saved-point slot")
